@@ -6,6 +6,16 @@ from .bk_wav import encode_as_wav
 file_formats = {}
 
 
+class ImageTooLarge(Exception):
+    pass
+
+
+def check_fits_header(code):
+    # bin and BK tape headers hold the length in one 16-bit word
+    if len(code) > 0xffff:
+        raise ImageTooLarge(f"The image is {len(code)} bytes long, which does not fit the 16-bit length field of this format")
+
+
 def file_format(fn):
     name = fn.__name__.rstrip("_")
     file_formats[name] = fn
@@ -13,6 +23,7 @@ def file_format(fn):
 
 @file_format
 def bin_(base, code):
+    check_fits_header(code)
     return struct.pack("<HH", base, len(code)) + code
 
 
@@ -23,9 +34,11 @@ def raw(_base, code):
 
 @file_format
 def bk_wav(base, code, bk_filename):
+    check_fits_header(code)
     return encode_as_wav(base, code, bk_filename)
 
 
 @file_format
 def bk_turbo_wav(base, code, bk_filename):
+    check_fits_header(code)
     return encode_as_wav(base, code, bk_filename, turbo=True)
